@@ -59,7 +59,7 @@ def run():
     for tid, clauses in v.fails.items():
         classify_diff(chk, "C11", byid[tid], clauses, DIFF_CLAUSES)
     # ---- diffs embedded in merge decisions ------------------------------------------------------
-    triples = corp.triples(n_enum=260 if chk.quick else 7000, n_random=80 if chk.quick else 3000, salt="c11t")
+    triples = corp.triples(n_enum=360 if chk.quick else 7000, n_random=100 if chk.quick else 3000, salt="c11t")
     cli = mergefam.cli_strategy_tuples()
     tasks = []
     for name, b, l, rr, info in triples:
